@@ -38,6 +38,7 @@ type Contract struct {
 	Inline   bool   // force inlining at call sites even though a contract exists
 	Safety   []string // property tags for automatic no-panic obligations
 	NoSafety bool
+	Serves   []string // properties that claim this function's base clauses
 	Params   []string // explicit formal names (for interface methods / externs)
 	Pure     bool
 	File     string
@@ -58,7 +59,24 @@ type Devirt struct {
 	Concrete string // "*cache.Cache"
 }
 
+type UFun struct {
+	Name   string
+	Pkg    string
+	Params []string // type names
+	Result string
+}
+
+type Axiom struct {
+	Pkg  string
+	Text string
+	Expr ast.Expr
+	File string
+	Line int
+}
+
 type ContractSet struct {
+	UFuns   map[string]*UFun
+	Axioms  []*Axiom
 	Funcs   map[string]*Contract
 	Defs    map[string]*SpecDef // key pkg.name
 	Devirts []Devirt
@@ -66,10 +84,10 @@ type ContractSet struct {
 	Files   []string
 }
 
-var clauseRe = regexp.MustCompile(`^(requires|ensures|modifies|loop|use|func|extern|iface|pred|ghost|devirt|noeffect|assumed|inline|safety|nosafety|params|pure)\b`)
+var clauseRe = regexp.MustCompile(`^(requires|ensures|modifies|loop|use|func|extern|iface|pred|ghost|devirt|noeffect|assumed|inline|safety|nosafety|params|pure|ufun|axiom|serves)\b`)
 
 func newContractSet() *ContractSet {
-	return &ContractSet{Funcs: map[string]*Contract{}, Defs: map[string]*SpecDef{}, NoEffectIfaces: map[string]bool{}}
+	return &ContractSet{Funcs: map[string]*Contract{}, Defs: map[string]*SpecDef{}, NoEffectIfaces: map[string]bool{}, UFuns: map[string]*UFun{}}
 }
 
 // loadContractFile parses one file. pkgName is the Go package short name that
@@ -130,6 +148,28 @@ func (cs *ContractSet) loadFileAs(path string, pkgKey string) error {
 				return fail(err)
 			}
 			cs.Defs[pkgName+"."+d.Name] = d
+		case "ufun":
+			// ufun name(t1, t2) result   -- uninterpreted specification function
+			lp, rp := strings.Index(rest, "("), strings.LastIndex(rest, ")")
+			if lp < 0 || rp < lp {
+				return fail(fmt.Errorf("ufun wants: name(types) result"))
+			}
+			u := &UFun{Name: strings.TrimSpace(rest[:lp]), Pkg: pkgName, Result: strings.TrimSpace(rest[rp+1:])}
+			for _, p := range strings.Split(rest[lp+1:rp], ",") {
+				if p = strings.TrimSpace(p); p != "" {
+					f := strings.Fields(p)
+					u.Params = append(u.Params, f[len(f)-1])
+				}
+			}
+			cs.UFuns[pkgName+"."+u.Name] = u
+			cur = nil
+		case "axiom":
+			e, err := parseSpecExpr(rest)
+			if err != nil {
+				return fail(err)
+			}
+			cs.Axioms = append(cs.Axioms, &Axiom{Pkg: pkgName, Text: rest, Expr: e, File: path, Line: s.line})
+			cur = nil
 		case "devirt":
 			f := strings.Fields(rest)
 			if len(f) != 2 {
@@ -198,6 +238,13 @@ func (ct *Contract) addClause(kw, rest, file string, line int) error {
 	case "safety":
 		ct.Safety = cl.Tags
 		return nil
+	case "serves":
+		for _, p := range strings.Split(rest, ",") {
+			if p = strings.TrimSpace(p); p != "" {
+				ct.Serves = append(ct.Serves, p)
+			}
+		}
+		return nil
 	case "params":
 		for _, p := range strings.Split(rest, ",") {
 			ct.Params = append(ct.Params, strings.TrimSpace(p))
@@ -214,14 +261,18 @@ func (ct *Contract) addClause(kw, rest, file string, line int) error {
 			return fmt.Errorf("bad loop ordinal %q", f[0])
 		}
 		cl.Loop = n
-		body := strings.TrimSpace(strings.TrimPrefix(strings.TrimSpace(rest[len(f[0]):]), f[1]))
+		kind := f[1]
+		if bi := strings.Index(kind, "["); bi > 0 {
+			kind = kind[:bi]
+		}
+		body := strings.TrimSpace(strings.TrimPrefix(strings.TrimSpace(rest[len(f[0]):]), kind))
 		if m := tagRe.FindStringSubmatch(body); m != nil {
 			for _, t := range strings.Split(m[1], ",") {
 				cl.Tags = append(cl.Tags, strings.TrimSpace(t))
 			}
 			body = strings.TrimSpace(body[len(m[0]):])
 		}
-		switch f[1] {
+		switch kind {
 		case "invariant":
 			cl.Kind = "invariant"
 			if m := labelRe.FindStringSubmatch(body); m != nil {
